@@ -305,35 +305,44 @@ template <int CLS, class TA, class MB> static void model_forward(const MB& m, co
 template <int CLS, class TA, class MB> static void model_inverse(const MB& m, const LD* t, LD* o) {
   if constexpr (CLS == 0) fl6(m.Strain(PhQ::Stress<TA>(sd<TA>(t), Pa)).Value(), o); else fl6(m.StrainRate(PhQ::Stress<TA>(sd<TA>(t), Pa)).Value(), o);
 }
-template <int CLS, class T, class TA> static Verdict model_history_t(int ntm, int nta, const Case& c) {
+// one query in the argument type `ta` (0 float, 1 double, 2 long double); results are returned as long double
+template <int CLS, class MB> static void model_query(const MB& m, int ta, bool inverse, const LD* t, LD* o) {
+  if (!inverse) { if (ta == 0) model_forward<CLS, float>(m, t, o); else if (ta == 1) model_forward<CLS, double>(m, t, o); else model_forward<CLS, long double>(m, t, o); }
+  else { if (ta == 0) model_inverse<CLS, float>(m, t, o); else if (ta == 1) model_inverse<CLS, double>(m, t, o); else model_inverse<CLS, long double>(m, t, o); }
+}
+template <int CLS, class T> static Verdict model_history_t(int ntm, int nta0, const Case& c) {
   using MO = ModelOf<CLS, T>; using M = typename MO::M;
   const LD* mat = &c.r[0]; const LD* t1 = &c.r[6]; const LD* t2 = &c.r[12];
   int cur = 0; auto obj = std::make_unique<M>(MO::make(mat[0], mat[1]));
   std::string trace = fmt("%s<%s> m(%s, %s)", MO::name, ntinfo(ntm).name, decld(mat[0]).c_str(), decld(mat[1]).c_str());
-  bool queried = false, reassigned_after_query = false, queried_after = false;
-  auto check = [&](const char* what, const LD* got, const LD* want, int n) -> std::string {
+  bool queried = false, reassigned_after_query = false, queried_after = false; int types_used = 0;
+  auto check = [&](const char* what, int nta, const LD* got, const LD* want, int n) -> std::string {
     for (int i = 0; i < n; i++) if (!same_bits(nta, got[i], want[i]) && !(got[i] != got[i] && want[i] != want[i]))
       return fmt("after [%s] %s component %d is %s, a freshly constructed model of the current material (%s, %s) gives %s [argument type %s]", trace.c_str(), what, i, hexld(got[i]).c_str(), decld(mat[2 * cur]).c_str(), decld(mat[2 * cur + 1]).c_str(), hexld(want[i]).c_str(), ntinfo(nta).name);
     return "";
   };
   const size_t nops = c.i.size() - 3;
   for (size_t j = 0; j <= nops; j++) {
-    const int op = j < nops ? (int)(c.i[3 + j] % 8) : 0, k = j < nops ? (int)((c.i[3 + j] / 8) % 3) : 0;
+    const long long code = j < nops ? c.i[3 + j] : 0;
+    const int op = (int)(code % 8), k = (int)((code / 8) % 3);
+    // the argument type of a query: the instance's type for two thirds of the steps, any of the three otherwise (overloads of different numeric types on ONE object)
+    const int nta = ((code / 24) % 3 == 0) ? (int)((code / 72) % 3) : nta0;
     const bool final_probe = j == nops;
     const M fresh = MO::make(mat[2 * cur], mat[2 * cur + 1]);
     LD got[6], want[6]; std::string m;
-    if (final_probe || op == 0 || op == 5) {
-      const ConstitutiveModel& base = *obj; const ConstitutiveModel& fbase = fresh;
-      if (op == 5 && !final_probe) { model_forward<CLS, TA>(base, t1, got); model_forward<CLS, TA>(fbase, t1, want); trace += "; forward query through the interface"; }
-      else { model_forward<CLS, TA>(*obj, t1, got); model_forward<CLS, TA>(fresh, t1, want); trace += "; forward query"; }
-      m = check("the forward map", got, want, 6); if (!m.empty()) return Verdict::fail(m);
-      if (reassigned_after_query) queried_after = true; queried = true;
-    }
-    if (final_probe || op == 1 || op == 6) {
-      const ConstitutiveModel& base = *obj; const ConstitutiveModel& fbase = fresh;
-      if (op == 6 && !final_probe) { model_inverse<CLS, TA>(base, t2, got); model_inverse<CLS, TA>(fbase, t2, want); trace += "; inverse query through the interface"; }
-      else { model_inverse<CLS, TA>(*obj, t2, got); model_inverse<CLS, TA>(fresh, t2, want); trace += "; inverse query"; }
-      m = check("the inverse map", got, want, 6); if (!m.empty()) return Verdict::fail(m);
+    for (int inverse = 0; inverse < 2; inverse++) {
+      const bool direct = inverse ? op == 1 : op == 0, iface = inverse ? op == 6 : op == 5;
+      if (!(final_probe || direct || iface)) continue;
+      // the final probe asks in all three argument types
+      for (int ta = final_probe ? 0 : nta; ta <= (final_probe ? 2 : nta); ta++) {
+        LD ta_t[6]; for (int i = 0; i < 6; i++) ta_t[i] = round_to(ta, (inverse ? t2 : t1)[i]);
+        const ConstitutiveModel& base = *obj; const ConstitutiveModel& fbase = fresh;
+        if (iface && !final_probe) { model_query<CLS>(base, ta, inverse, ta_t, got); model_query<CLS>(fbase, ta, inverse, ta_t, want); }
+        else { model_query<CLS>(*obj, ta, inverse, ta_t, got); model_query<CLS>(fresh, ta, inverse, ta_t, want); }
+        trace += fmt("; %s query<%s>%s", inverse ? "inverse" : "forward", ntinfo(ta).name, iface && !final_probe ? " through the interface" : "");
+        m = check(inverse ? "the inverse map" : "the forward map", ta, got, want, 6); if (!m.empty()) return Verdict::fail(m);
+        types_used |= 1 << ta;
+      }
       if (reassigned_after_query) queried_after = true; queried = true;
     }
     if (final_probe) {
@@ -351,17 +360,15 @@ template <int CLS, class T, class TA> static Verdict model_history_t(int ntm, in
       default: break;
     }
   }
-  Verdict V; V.cls = std::string(MO::name) + "<" + ntinfo(ntm).name + ">/arg<" + ntinfo(nta).name + ">" + (queried_after ? ";query-after-reassignment-after-query" : ";no-such-pattern");
+  const int ntypes = (types_used & 1) + ((types_used >> 1) & 1) + ((types_used >> 2) & 1);
+  Verdict V; V.cls = std::string(MO::name) + "<" + ntinfo(ntm).name + ">/arg<" + ntinfo(nta0).name + ">" + (queried_after ? ";query-after-reassignment-after-query" : ";no-such-pattern");
   V.nontrivial = queried_after; V.sub_evals = (long)nops + 1; V.sub_nontrivial = queried_after ? (long)nops + 1 : 0;
+  (void)ntypes;
   return V;
 }
 template <int CLS> static Verdict model_history(const Case& c) {
   const int ntm = (int)c.i[0], nta = (int)c.i[1];
-#define VF_D(A, B, TA_, TB_) if (ntm == A && nta == B) return model_history_t<CLS, TA_, TB_>(ntm, nta, c);
-  VF_D(0, 0, float, float) VF_D(0, 1, float, double) VF_D(0, 2, float, long double) VF_D(1, 0, double, float) VF_D(1, 1, double, double) VF_D(1, 2, double, long double)
-  VF_D(2, 0, long double, float) VF_D(2, 1, long double, double) VF_D(2, 2, long double, long double)
-#undef VF_D
-  return Verdict::skip("bad-instance");
+  return ntm == 0 ? model_history_t<CLS, float>(ntm, nta, c) : ntm == 1 ? model_history_t<CLS, double>(ntm, nta, c) : model_history_t<CLS, long double>(ntm, nta, c);
 }
 static Verdict model_history_any(const Case& c) { const int cls = (int)c.i[2]; return cls == 0 ? model_history<0>(c) : cls == 1 ? model_history<1>(c) : model_history<2>(c); }
 // materials: three (a, b) pairs; solids: admissible (mu, lambda); fluids: positive viscosities
@@ -370,7 +377,7 @@ static rc::Gen<Case> gen_model_history(int ntm, int nta, int cls) {
   auto mats = cls == 0 ? rc::gen::map(rc::gen::tuple(gen_material(ntm), gen_material(ntm), gen_material(ntm)), [](const std::tuple<std::vector<LD>, std::vector<LD>, std::vector<LD>>& t) {
                 std::vector<LD> v = std::get<0>(t); v.insert(v.end(), std::get<1>(t).begin(), std::get<1>(t).end()); v.insert(v.end(), std::get<2>(t).begin(), std::get<2>(t).end()); return v; })
                        : gen_reals(6, ntm, -w, w, 0);
-  return rc::gen::map(rc::gen::tuple(mats, gen_reals(12, nta, -w, w, kNeg), rc::gen::container<std::vector<int>>(10, irange(0, 23)), irange(2, 10)),
+  return rc::gen::map(rc::gen::tuple(mats, gen_reals(12, nta, -w, w, kNeg), rc::gen::container<std::vector<int>>(10, irange(0, 215)), irange(2, 10)),
                       [=](const std::tuple<std::vector<LD>, std::vector<LD>, std::vector<int>, int>& t) {
                         Case c; c.i = {ntm, nta, cls}; c.r = std::get<0>(t); c.r.insert(c.r.end(), std::get<1>(t).begin(), std::get<1>(t).end());
                         for (int j = 0; j < std::get<3>(t); j++) c.i.push_back(std::get<2>(t)[(size_t)j]);
@@ -433,8 +440,8 @@ int main(int argc, char** argv) {
     Sub s; s.name = "c12.history"; s.property = "C12"; s.instances = 9; s.n_quick = 4000; s.n_thorough = 100000; s.run = model_history_any;
     s.gen = [](int inst) { return gen_model_history(inst / 3, inst % 3, 0); };
     s.instance_name = [](int inst) { return std::string("model<") + ntinfo(inst / 3).name + ">/arg<" + ntinfo(inst % 3).name + ">"; };
-    s.rule = "stateful: histories of 2..10 operations on ONE model object (stress query, strain query, the same through const ConstitutiveModel&, copy-assignment / move-assignment of one of three generated materials, continuing with a "
-             "copy- / move-constructed object); oracle after every query and at the end: bit-identical to a freshly constructed model of the current material, accessors, ==, <, hash agree; non-trivial: a query, then an assignment of a "
+    s.rule = "stateful: histories of 2..10 operations on ONE model object (stress query, strain query - in the instance's argument type or, for a third of the steps, in any of the three overloads -, the same through const ConstitutiveModel&, copy-assignment / move-assignment of one of three generated materials, continuing with a "
+             "copy- / move-constructed object; a final probe in all three argument types); oracle after every query and at the end: bit-identical to a freshly constructed model of the current material, accessors, ==, <, hash agree; non-trivial: a query, then an assignment of a "
              "different material, then a query";
     subs.push_back(s);
   }
